@@ -170,6 +170,28 @@ def bestOf (F : Facts) (op : BinOp) (best : Val) : List Val → EM Val
   | x :: r => do
     if truthy (← cmpOp F 64 op x best) then bestOf F op x r else bestOf F op best r
 
+/-- The sorting step of `sorted` on (key, element) pairs.
+    * `reverse`: today the comparison is flipped (`order = GreaterThan`) and the same sort runs — tied elements keep
+      their original order, as in Python; with the fact `sortedRevAfter` the list is sorted ascending and reversed.
+    * the sort is an insertion sort front to back (what `sort.Slice` is on up to 12 elements); with a key function and
+      more than 12 elements `sort.Slice` is not stable and the model does not follow it (`sortedStable = false`). -/
+def sortCore (F : Facts) (rev keyedByFn : Bool) (keyed : List (Val × Val)) : EM (List Val) := do
+  if keyedByFn && !F.sortedStable && keyed.length > 12 then
+    fail "model: sort.Slice beyond 12 elements with a key function is not stable; not modelled"
+  else do
+    let op := if rev && !F.sortedRevAfter then BinOp.gt else BinOp.lt
+    let sorted ← stableSort (fun (a b : Val × Val) => do pure (truthy (← cmpOp F 64 op a.1 b.1))) keyed
+    let out := sorted.map (·.2)
+    pure (if rev && F.sortedRevAfter then out.reverse else out)
+
+/-- positional values bound to the parameters of a function (a `Call` whose arguments are constants) -/
+def bindVals (s2 : Nat) (fn : Func) : Nat → List Val → EM Unit
+  | _, [] => pure ()
+  | i, v :: r =>
+    match fn.params[i]? with
+    | some (p, _) => do setVar s2 p v; bindVals s2 fn (i + 1) r
+    | none => fail s!"Too many arguments to {fn.name}"
+
 /-- natives that do not call back into the interpreter -/
 def callBuiltin (F : Facts) (fname : String) (args : List (Option String × Val)) : EM Val := do
   match builtinSig fname with
@@ -183,11 +205,10 @@ def callBuiltin (F : Facts) (fname : String) (args : List (Option String × Val)
       let rev ← match reverse with
         | .bool b => pure b
         | _ => fail "Argument reverse must be a bool"
-      if key != .none then fail "model: sorted(key=) is outside the core"
+      if key != .none then fail "model: sorted(key=) is evaluated by sortedCall"
       else do
         let xs ← elems arr off len
-        let op := if rev then BinOp.gt else BinOp.lt
-        let sorted ← stableSort (fun a b => do pure (truthy (← cmpOp F 64 op a b))) xs
+        let sorted ← sortCore F rev false (xs.map fun x => (x, x))
         -- the comparisons that `sort.Slice` makes on a list of ≥ 2 elements raise on incomparable neighbours
         if F.sortedInPlace then do
           writeMany arr off sorted
@@ -404,7 +425,7 @@ mutual
             pure .none
           else if (builtinSig fn).isSome then do
             let vs ← evalArgs F opt f sc args
-            callBuiltin F fn vs
+            if fn == "sorted" then sortedCall F opt f sc vs else callBuiltin F fn vs
           else fail s!"name '{fn}' is not defined"
       | .index a i => do
         let obj ← evalExpr F opt f sc false a
@@ -585,6 +606,54 @@ mutual
         | .ret v => pure v
         | _ => pure .none
   termination_by structural fuel _ _ _ => fuel
+
+  /-- `f.Call(s, &Call{Arguments: constants})`: a function value applied to values (the `key` of `sorted`) -/
+  def callUserVals (F : Facts) (opt : Bool) : Nat → Nat → Nat → List Val → EM Val
+    | 0, _, _, _ => fail "fuel"
+    | f + 1, sc, id, vals => do
+      match (← get).funcs[id]? with
+      | none => fail "model: bad function"
+      | some fn => do
+        let s2 ← newScope (some fn.scope)
+        bindVals s2 fn 0 vals
+        fillDefaults F fn.opt f sc s2 fn.name fn.params
+        match ← execStmts F fn.opt f s2 fn.body with
+        | .ret v => pure v
+        | _ => pure .none
+  termination_by structural fuel _ _ _ => fuel
+
+  /-- the keys of the elements (`key.Call` inside the comparison function: never called on fewer than 2 elements) -/
+  def keysOf (F : Facts) (opt : Bool) : Nat → Nat → Nat → List Val → EM (List (Val × Val))
+    | 0, _, _, _ => fail "fuel"
+    | _ + 1, _, _, [] => pure []
+    | f + 1, sc, id, x :: r => do
+      let k ← callUserVals F opt f sc id [x]
+      pure ((k, x) :: (← keysOf F opt f sc id r))
+  termination_by structural fuel _ _ _ => fuel
+
+  /-- `sorted(seq, key=None, reverse=False)` (builtins.go); without a key function it is `callBuiltin`'s case -/
+  def sortedCall (F : Facts) (opt : Bool) : Nat → Nat → List (Option String × Val) → EM Val
+    | 0, _, _ => fail "fuel"
+    | f + 1, sc, vs =>
+      match builtinSig "sorted" with
+      | none => fail "model: sorted"
+      | some sig => do
+        let (vals, _) ← bindNative "sorted" sig none vs
+        match vals with
+        | [seq, .func id, reverse] => do
+          let (arr, off, len, cap) ← asListFor F "sorted" "Argument seq" seq
+          let rev ← match reverse with
+            | .bool b => pure b
+            | _ => fail "Argument reverse must be a bool"
+          let xs ← elems arr off len
+          let keyed ← if xs.length < 2 then pure (xs.map fun x => (x, x)) else keysOf F opt f sc id xs
+          let sorted ← sortCore F rev true keyed
+          if F.sortedInPlace then do
+            writeMany arr off sorted
+            pure (.list false arr off len cap)
+          else mkList sorted
+        | _ => callBuiltin F "sorted" vs
+  termination_by structural fuel _ _ => fuel
 
   def bindArgs (F : Facts) (opt : Bool) : Nat → Nat → Nat → Func → Nat → List (Option String × Expr) → EM Unit
     | 0, _, _, _, _, _ => fail "fuel"
